@@ -320,6 +320,16 @@ def c08(tier):
                   "open 0 fd rw 1 %d 1 %d" % (fmt, RATE), "read 0 %s f 50" % T, "write 0 %s f 3 gen %s %d %d" % (T, cls, rng.randint(1, 10 ** 6), par),
                   "seek 0 %d 16" % (pre - 1), "read 0 %s f 9" % T, "close 0",
                   "open 1 fd r 1 %d 1 %d" % (fmt if scen.major(fmt) == scen.RAW else 0, RATE), "read 1 %s f %d" % (T, pre + 8), "close 1")
+    for fmt in allf:
+        for T in sorted(set(["s", gen_core.type_for(fmt)])):
+            lc = scen.lossless_class(fmt, T)
+            if not lc:
+                continue
+            S.scn(fmt="0x%x" % fmt, ch=1, T=T, kind="rwbigwrite")
+            S.add("file 1 new", "open 0 fd w 1 %d 1 %d" % (fmt, RATE), "write 0 %s f 150 gen %s %d %d" % (T, lc[0], rng.randint(1, 10 ** 6), lc[1]), "close 0",
+                  "open 0 fd rw 1 %d 1 %d" % (fmt, RATE), "seek 0 100 32", "write 0 %s f 9000 gen %s %d %d" % (T, lc[0], rng.randint(1, 10 ** 6), lc[1]),
+                  "seek 0 90 16", "read 0 %s f 9100" % T, "close 0",
+                  "open 1 fd r 1 %d 1 %d" % (fmt if scen.major(fmt) == scen.RAW else 0, RATE), "read 1 %s f 9200" % T, "close 1")
     depth = 3 if tier == "quick" else 4
     fam = [0x10002, 0x20004, 0x30006, 0x40001, 0x180003] if tier == "quick" else [0x10002, 0x10005, 0x10006, 0x20004, 0x30007, 0x40001, 0x180003, 0xb0002, 0x220002, 0x50002, 0x70003, 0xa0006, 0xc0007, 0xd0004]
     nh = 0
@@ -371,6 +381,12 @@ def c09(tier):
             for ty in (1, 2, 3, 4, 5, 6):
                 S.add("getstr 1 %d" % ty)
             S.add("getmeta 1 cues 0 0", "read 1 s f 30", "close 1")
+    # a structured item that is refused for its size after a valid one: what was stored first must come back after close and re-open
+    for fmt in (0x10002, 0x130002, 0x220002):
+        for kind_ in ("bext", "cart"):
+            S.scn(fmt="0x%x" % fmt, ch=1, T="s", kind="metainv2", item=kind_)
+            S.add("file 1 new", "open 0 vio w 1 %d 1 %d" % (fmt, RATE), "setmeta 0 %s 4 9 30" % kind_, "setmeta 0 %s 7 5 20000" % kind_, "errq 0", "setmeta 0 %s 8 3 70000" % kind_, "errq 0",
+                  "write 0 s f 20 gen lbz %d 0" % rng.randint(1, 10 ** 6), "close 0", "open 1 vio r 1 0 1 %d" % RATE, "getmeta 1 %s 0 0" % kind_, "read 1 s f 25", "close 1")
     # failing opens that go through the resource fork reader: the fork cut short at every length
     S.scn(fmt="0x160002", ch=1, kind="badopen_sd2", relax=1)
     S.add("file 1 new", "open 0 path w 1 %d 1 %d" % (0x160002, RATE), "write 0 s f 20 gen noise 5 0", "close 0")
@@ -509,12 +525,19 @@ def c14(tier):
         if scen.major(fmt) in (1, 2, 3, 0x13) and scen.is_granular(fmt) and ch == 1:
             gen_env.c14_scenario(S, fmt, ch, RATE, rng, N=3)          # embedded files shorter than a WAV header
         if scen.major(fmt) in (1, 2, 0x13, 0x18, 0x22) and scen.is_granular(fmt):
-            gen_env.c14_scenario(S, fmt, ch, RATE, rng, rich=True)     # application chunks and strings in front of the audio
+            gen_env.c14_scenario(S, fmt, ch, RATE, rng, rich=1)     # application chunks and strings in front of the audio
+            if ch == 1 and scen.sub(fmt) == 2 and scen.major(fmt) in (1, 2):
+                for big in (16384, 49152):     # large payloads (the writer cannot carry more than its header buffer holds, see KF-chunk-header-100k)
+                    gen_env.c14_scenario(S, fmt, ch, RATE, rng, rich=big)
     # valid files this library did not write, through every route (AU with annotations up to and beyond the header cache limit,
     # hand-built AIFF / WAV with the chunk types the library never writes)
     for nann in (4, 40, 1000, 51176, 51177, 60000) if tier == "quick" else (0, 1, 4, 40, 1000, 8192, 51175, 51176, 51177, 51200, 60000, 90000, 110000):
         for ch in (1, 2):
             gen_env.c14_foreign(S, gen_seeds.au_annotated(nann, ch), ch, rng)
+    # an unknown chunk beyond the header cache in front of the audio: skipped with a seek on most routes, read and discarded in pieces on a pipe
+    for big in (65536, 65537, 98304, 131072, 81920 + 3):
+        for data in gen_seeds.big_chunk_files(big):
+            gen_env.c14_foreign(S, data, 1, rng, routes=("vio", "fd", "path", "pipe"), reads=(7, 64))
     for fmt, ch, data, do in gen_seeds.crafted()[:6]:
         gen_env.c14_foreign(S, data, ch, rng, routes=("vio", "fd", "path", "pipe") if scen.major(fmt) != 0x13 else ("vio", "fd", "path"))
     mcs = [gen_core.mc_rw("R", 2, tag=tier[0])]
@@ -576,7 +599,8 @@ def c15(tier):
     # one format per container and per codec family
     rep = [(0x10002, 2), (0x10006, 1), (0x10012, 1), (0x10013, 1), (0x10020, 1), (0x10022, 1), (0x10030, 1), (0x10010, 1), (0x20002, 2), (0x20012, 1), (0x20041, 1), (0x30002, 1), (0x30031, 1),
            (0x40002, 1), (0x40021, 1), (0x50003, 2), (0x50002, 1), (0x60002, 1), (0x70002, 1), (0x80002, 1), (0xa0002, 1), (0xb0002, 1), (0xc0002, 1), (0xd0002, 1), (0xe0002, 1),
-           (0xf0051, 1), (0x100002, 1), (0x110002, 1), (0x120002, 1), (0x130002, 2), (0x180002, 1), (0x180070, 1), (0x190011, 1), (0x210002, 1), (0x220002, 1)]
+           (0xf0051, 1), (0x100002, 1), (0x110002, 1), (0x120002, 1), (0x130002, 2), (0x180002, 1), (0x180070, 1), (0x190011, 1), (0x210002, 1), (0x220002, 1),
+           (0x40020, 1), (0x20020, 1), (0x40022, 1), (0xb0020, 1)]          # the codecs whose block readers differ by container (GSM, NMS)
     ok = set(formats.writable(exe, chans=(1, 2), rate=RATE))
     rep = [x for x in rep if x in ok]
     rest = []
@@ -767,6 +791,10 @@ def c03(tier):
     S = scen.Script()
     per = 110 if tier == "quick" else 1200
     gen_c03.scenarios(S, seeds, rng, per, routes=("vio", "vio", "fd", "pipe") if tier == "thorough" else ("vio", "vio", "vio", "fd", "pipe"), ncalls=10 if tier == "quick" else 16, systematic=(2 if tier == "thorough" else 0))
+    if tier == "quick":
+        # block codecs keep their block geometry in the header (block size, samples per block, coefficient tables): the near-value pass
+        # (+1, -1, doubled, halved on every 2 byte field) for those seeds on every change
+        gen_c03.scenarios(S, [x for x in seeds if not scen.is_granular(x[0]) and x[1] == 1], rng, 0, routes=("vio",), ncalls=4, systematic=1)
     # hand-built files with the chunk types the library reads but never writes (INST + MARK + COMT + APPL; smpl + cue + adtl + inst + acid):
     # random mutants plus the systematic near-value and hostile-value passes over every header field
     crafted = gen_seeds.crafted()
@@ -1071,19 +1099,23 @@ def _c02_xtype(tier):
         ft = lambda x: str(_st.unpack("<i", _st.pack("<f", x))[0])
         S.scn(fmt="0x%x" % fmt, ch=ch, T="d", kind="unnormw", fmode=1)
         # (one setting off at a time: the writer has to look at the setting of its own type)
+        # (the double entry point also gets values that need more than 24 significant bits)
+        # (mantissas below 2^30: larger ones are logged in split form, which the rule does not take)
+        wide = [float(k * (1 << (u - w))) for k in (123456789, -987654321, 536870913, -1073741823, 33554433, -16777217)] if w > 24 else []
+        wide = wide[:len(wide) // ch * ch]
         S.add("file 1 new", "open 0 vio w 1 %d %d %d" % (fmt, ch, RATE), "cmd 0 SET_NORM_DOUBLE 0",
-              "write 0 d i %d %s" % (len(vals), " ".join(dt(v) for v in vals)), "cmd 0 SET_NORM_DOUBLE 1", "cmd 0 SET_NORM_FLOAT 0",
+              "write 0 d i %d %s" % (len(vals) + len(wide), " ".join(dt(v) for v in vals + wide)), "cmd 0 SET_NORM_DOUBLE 1", "cmd 0 SET_NORM_FLOAT 0",
               "write 0 f i %d %s" % (len(vals), " ".join(ft(v) for v in vals)), "close 0",
-              "open 1 vio r 1 %d %d %d" % (fmt if scen.major(fmt) == scen.RAW else 0, ch, RATE), "read 1 i i %d" % (2 * len(vals) + ch),
-              "cmd 1 SET_NORM_DOUBLE 0", "seek 1 0 0", "read 1 d i %d" % (2 * len(vals)), "seek 1 0 0", "read 1 f i %d" % (2 * len(vals)), "close 1")
+              "open 1 vio r 1 %d %d %d" % (fmt if scen.major(fmt) == scen.RAW else 0, ch, RATE), "read 1 i i %d" % (2 * len(vals) + len(wide) + ch),
+              "cmd 1 SET_NORM_DOUBLE 0", "seek 1 0 0", "read 1 d i %d" % (2 * len(vals) + len(wide)), "seek 1 0 0", "read 1 f i %d" % (2 * len(vals) + len(wide)), "close 1")
         # the same with clipping on and values at and beyond the extremes: saturation instead of wrapping
         big = [float(1 << (u - 1)), float(1 << u), -float(1 << u), 1.5 * (1 << (u - 1)), -1.5 * (1 << (u - 1)), 5.0 * (1 << (u - w)), -float(1 << (u - 1)), float(top * (1 << (u - w)))]
         big = (big * ((n // len(big)) + 1))[:max(len(big), n) // ch * ch]
         S.scn(fmt="0x%x" % fmt, ch=ch, T="d", kind="unnormclip", fmode=1)
         S.add("file 1 new", "open 0 vio w 1 %d %d %d" % (fmt, ch, RATE), "cmd 0 SET_CLIPPING 1", "cmd 0 SET_NORM_DOUBLE 0",
-              "write 0 d i %d %s" % (len(big), " ".join(dt(v) for v in big)), "cmd 0 SET_NORM_DOUBLE 1", "cmd 0 SET_NORM_FLOAT 0",
+              "write 0 d i %d %s" % (len(big) + len(wide), " ".join(dt(v) for v in big + wide)), "cmd 0 SET_NORM_DOUBLE 1", "cmd 0 SET_NORM_FLOAT 0",
               "write 0 f i %d %s" % (len(big), " ".join(ft(v) for v in big)), "close 0",
-              "open 1 vio r 1 %d %d %d" % (fmt if scen.major(fmt) == scen.RAW else 0, ch, RATE), "read 1 i i %d" % (2 * len(big) + ch), "close 1")
+              "open 1 vio r 1 %d %d %d" % (fmt if scen.major(fmt) == scen.RAW else 0, ch, RATE), "read 1 i i %d" % (2 * len(big) + len(wide) + ch), "close 1")
     # float / double files read through the integer types (scaling off): nearest integer, saturation with clipping on
     fvals = [0.0, 0.5, -0.5, 1.5, 2.5, -1.5, -2.5, 0.49999997, 0.75, 1.0, -1.0, 3.25, 100.5, 101.5, 32766.5, 32767.0, 32767.5, 32768.0, -32768.0, -32768.5, -32769.0, 65536.0, 1e6,
              16777215.0, 16777216.0, 2147483520.0, 2147483648.0, -2147483648.0, -2147483904.0, 4294967296.0, -4294967296.0, 3e9, -3e9, 1e-3, -1e-3] + [rng.uniform(-40000, 40000) for _ in range(40)] + [rng.uniform(-3e9, 3e9) for _ in range(20)]
